@@ -4,6 +4,7 @@ package main
 // counters in harness-registered pure and impure static functions.
 
 import (
+	"sort"
 	"fmt"
 	"math"
 	"strings"
@@ -148,7 +149,7 @@ func c02Signature(src string, args []value.Value, on, off c02Result) string {
 }
 
 func runC02(c *Ctx) {
-	c.rule = "every program is generated on two fresh value.New() generators (default optimizer; SetOptimizer(nil) before first use) with a pure and an impure counting static function; compared: outcome (bit-exact; relative 1e-12 only for same-operator float chains mixing constants and variables), impure calls during Generate (must be 0), per-evaluation impure call log. Cases: (1) exhaustive chains (c1 op x) op c2, (x op c1) op c2, c1 op (x op c2), c1 op c2 for every operator x operand triple over 13 operands of 6 types; (2) random programs of the C01 generator rich in constants (scope-free subterms), with tickI/tickP wrappers and constant conditions; non-trivial = distinct program whose optimized AST differs from the unoptimized AST"
+	c.rule = "every program is generated on two fresh value.New() generators (default optimizer; SetOptimizer(nil) before first use) with a pure and an impure counting static function; compared: outcome (bit-exact; relative 1e-12 only for same-operator float chains mixing constants and variables), impure calls during Generate (must be 0), per-evaluation impure call log. Cases: (1) exhaustive chains (c1 op x) op c2, (x op c1) op c2, c1 op (x op c2), c1 op c2 for every operator x operand triple over 13 operands of 6 types; (1c) closure fields named like every map method and locals named like static functions, called with constants; (1d) 42 typed positions x 19 constants of every type (plain and behind a constant let); (2) random programs of the C01 generator rich in constants (scope-free subterms), with tickI/tickP wrappers and constant conditions; non-trivial = distinct program whose optimized AST differs from the unoptimized AST"
 	c.assume = append(c.assume, "host-registered functions are represented by the harness' counting functions; randomConst/random excluded")
 
 	type ccase struct {
@@ -217,6 +218,55 @@ func runC02(c *Ctx) {
 		}
 	}
 	c.extra["purity_sweep_programs"] = purity
+	// (1c) name-space sweep: a constant map with a closure stored in a field named like a method of maps (every
+	// registered one) is called through that name with constant arguments: the field wins at run time, so the
+	// folded call has to be the field's as well; also locals named like static functions
+	collisions := 0
+	if mm := value.New().VerifMethods()["map"]; mm != nil {
+		var names []string
+		for name := range mm {
+			names = append(names, name)
+		}
+		sort.Strings(names)
+		for _, name := range names {
+			for _, form := range []string{"{x: 1, @: e -> e + 1000}.@(5)", "{x: 1, @: (p, q) -> p * 1000 + q}.@(5, 6)", "{x: 1, @: (p, q, r) -> p + q + r + 1000}.@(5, 6, 7)",
+				"{x: 1, @: e -> e + 1000}.@(\"x\")", "let mm = {x: 1, @: e -> e + 1000}; mm.@(5) + mm.x", "{x: 1, @: e -> tickI(e) + 1000}.@(5)", "[1, 2].map(i -> {x: i, @: e -> e + 1000}.@(5)).sum()"} {
+				cases = append(cases, ccase{strings.ReplaceAll(form, "@", name), []string{"a"}, []value.Value{value.Int(1)}, false})
+				collisions++
+			}
+		}
+	}
+	for _, st := range []string{"abs", "sqr", "min", "max", "list", "string", "int", "float", "sqrt"} {
+		for _, form := range []string{"let @ = e -> e + 1000; @(0 - 3)", "(@ -> @(0 - 3))(e -> e + 1000)", "func @(e) e + 1000; @(0 - 3)", "[1].map(@ -> @ + 1).sum() + @(4)", "{@: e -> e + 1000}.@(0 - 3)"} {
+			cases = append(cases, ccase{strings.ReplaceAll(form, "@", st), []string{"a"}, []value.Value{value.Int(1)}, false})
+			collisions++
+		}
+	}
+	c.extra["name_space_sweep_programs"] = collisions
+	// (1d) typed positions: every position of the language that demands a type (condition, operand, index, callee,
+	// receiver, numeric argument) filled with constants of every type, also behind a constant let and a folded
+	// subterm: folding must fail (or not happen) exactly where evaluation fails
+	typedPos := []string{"if @ then 1 else 2", "if @ then tickI(1) else tickI(2)", "try if @ then 10 else 20 catch 30", "(if @ then 1 else 2) + a", "switch @ case 1 : 10 case true : 20 default 30",
+		"@ & true", "true & @", "@ | false", "false | @", "!(@)", "-(@)", "[10, 20, 30][@]", "\"abc\".cut(@, 1)", "numbers(@).size()", "list(@).size()", "(@)(1)", "(@).x", "(@).size()", "(@).len()",
+		"[1, 2].top(@).size()", "[1, 2].map(@).size()", "{a: 1}.get(@)", "{a: 1}.put(@, 2).size()", "@ ~ [1, 2]", "1 ~ @", "@ < 2", "@ = 1", "abs(@)", "sqrt(@)", "int(@)", "string(@).len()", "min(@, 2)",
+		"[1, 2].reduce(@)", "[@].sum()", "1 << @", "7 % @", "2 ^ @", "@ + [1]", "throw(@)", "(x -> x + 1)(@)", "[3, 1, 2].order(e -> @).first()", "func g(n) if @ then n else 0; g(a)"}
+	typedConst := []string{"1", "0", "2", "0 - 1", "1.5", "true", "false", "\"s\"", "\"\"", "[1]", "[]", "{a: 1}", "(e -> e)", "2 * 3", "1 = 1", "\"a\" + \"b\"", "[1, 2].size()", "1 / 0", "[1][5]"}
+	typed := 0
+	for _, tp := range typedPos {
+		for _, tc := range typedConst {
+			for _, form := range []string{"%s", "let c0 = %[2]s; %[3]s"} {
+				var src string
+				if form == "%s" {
+					src = strings.ReplaceAll(tp, "@", tc)
+				} else {
+					src = "let c0 = " + tc + "; " + strings.ReplaceAll(tp, "@", "c0")
+				}
+				cases = append(cases, ccase{src, []string{"a"}, []value.Value{value.Int(1)}, false})
+				typed++
+			}
+		}
+	}
+	c.extra["typed_position_sweep_programs"] = typed
 	// (2) random programs, constant-rich
 	n := c.Pick(2500, 60000)
 	for i := 0; i < n; i++ {
